@@ -25,12 +25,12 @@ ASSUMPTIONS = [
 
 
 def run(ctx, rep):
-    RG.rule_end_anchor(ctx, rep, "V1")
-    RG.rule_single_entry(ctx, rep, "V1", min_sites=3)
-    RT.rule_capture_complete(ctx, rep, "V2", min_actions=26)
-    RT.rule_no_phantom_read(ctx, rep, "V2")
-    RG.rule_termination(ctx, rep, "V3")
-    RF.rule_not_swallowed(ctx, rep, "V4", min_try=3)
-    RF.rule_no_write_before_reject(ctx, rep, "V5", min_entries=5)
-    RF.rule_validations_present(ctx, rep, "V6")
+    rep.run(RG.rule_end_anchor, ctx, rep, "V1")
+    rep.run(RG.rule_single_entry, ctx, rep, "V1", min_sites=3)
+    rep.run(RT.rule_capture_complete, ctx, rep, "V2", min_actions=26)
+    rep.run(RT.rule_no_phantom_read, ctx, rep, "V2")
+    rep.run(RG.rule_termination, ctx, rep, "V3")
+    rep.run(RF.rule_not_swallowed, ctx, rep, "V4", min_try=3)
+    rep.run(RF.rule_no_write_before_reject, ctx, rep, "V5", min_entries=5)
+    rep.run(RF.rule_validations_present, ctx, rep, "V6")
     rep.require_min("V6", 4)
